@@ -54,6 +54,13 @@ var MethodCallPoint = make(map[string][]CallPoint)
 var MethodCalleePoint = make(map[string][]CalleePoint)
 var SpecialCodeComments = []SpecialCodeComment{}
 
+// CallGraphKey is the key of MethodCallPoint / MethodCalleePoint for a method. The parts are
+// separated by a character no name can contain, so that class "A", method "bc" and class "Ab",
+// method "c" are different entries.
+func CallGraphKey(frame, class, method string) string {
+	return frame + "\x00" + class + "\x00" + method
+}
+
 // compareSigTie orders signatures that agree on method, class and frame (a class
 // method and an instance method of the same name, overloads), so that the sorted
 // result never depends on map iteration order.
